@@ -2,3 +2,4 @@
 -- generated definitions and lemmas).
 import SigpyVerif.Props.C09
 import SigpyVerif.Props.C05
+import SigpyVerif.Props.C03
